@@ -119,6 +119,10 @@ def _build(kind, xs):
         return np.array(xs, dtype=object)
     if kind == "series":
         return pd.Series(list(xs), dtype=object, index=range(3, 3 + len(xs)))
+    if kind == "series_float":
+        return pd.Series(list(xs), dtype=float)
+    if kind == "ndarray_float":
+        return np.array(list(xs), dtype=float)
     raise KeyError(kind)
 
 
@@ -130,14 +134,24 @@ def k_sets(ctx, a, b, ka, kb):
     """a, b: lists possibly with duplicates and missing markers (None / 'NaN' string token replaced by float nan)."""
     import pyrepseq as prs
     nan = float("nan")
-    A = [nan if x == "__nan__" else x for x in a]
-    B = [nan if x == "__nan__" else x for x in b]
+    tok = {"__nan__": nan, "__inf__": float("inf"), "__-inf__": float("-inf")}
+
+    def conv(x):
+        if isinstance(x, list):
+            return tuple(x)                      # an element that is itself a tuple (paired clonotype)
+        return tok.get(x, x) if isinstance(x, str) else x
+    A = [conv(x) for x in a]
+    B = [conv(x) for x in b]
+    if any(isinstance(x, float) and x in (float("inf"), float("-inf")) for x in A + B):
+        ctx.count("infinite_element_cases")
+    if any(isinstance(x, tuple) for x in A + B):
+        ctx.count("tuple_element_cases")
     miss = any(x is None or x == "__nan__" for x in a + b)
     SA, SB = _clean(A), _clean(B)
     ctx.count("set_cases")
     if "set" in (ka, kb):
         ctx.count("set_input_cases")
-    if miss and "series" in (ka, kb):
+    if miss and ("series" in (ka, kb) or "series_float" in (ka, kb)):
         ctx.count("series_with_missing_cases")
     if miss and ("list" in (ka, kb) or "tuple" in (ka, kb)):
         ctx.count("list_with_missing_cases")
@@ -167,7 +181,7 @@ def k_sets(ctx, a, b, ka, kb):
         # jaccard: missing values only inside Series (documented behaviour)
         x_has = any(v is None or (isinstance(v, float) and v != v) for v in x)
         y_has = any(v is None or (isinstance(v, float) and v != v) for v in y)
-        if (not x_has or kx == "series") and (not y_has or ky == "series") and (SA or SB):
+        if (not x_has or kx.startswith("series")) and (not y_has or ky.startswith("series")) and (SA or SB):
             X, Y = _build(kx, x), _build(ky, y)
             o = ctx.call(prs.jaccard_index, X, Y)
             wantj = len(SA & SB) / len(SA | SB)
@@ -196,6 +210,17 @@ def generate(tier, seed):
         yield "vector", {"vec": vec}, i < 10
     # D9 witness class
     yield "sets", {"a": [1, 2], "b": [2, 3], "ka": "set", "kb": "set"}, True
+    # infinite values are ordinary elements (only missing values are dropped)
+    for ka, kb in (("list", "list"), ("series_float", "series_float"), ("ndarray_float", "list"), ("series_float", "set")):
+        yield "sets", {"a": [0.5, "__inf__", 2.0], "b": ["__inf__", 3.0, 0.5], "ka": ka, "kb": kb}, True
+        yield "sets", {"a": [0.5, "__inf__", "__-inf__", 2.0], "b": ["__-inf__", 3.0], "ka": ka, "kb": kb}, True
+    yield "sets", {"a": [0.5, "__inf__", "__nan__", 2.0], "b": ["__inf__", "__nan__", 3.0], "ka": "series_float", "kb": "series_float"}, True
+    # elements that are tuples (paired clonotypes): equal only as whole tuples
+    pa = [["CAVRD", "CASSLGF"], ["CAVKD", "CASSPGF"], ["CAVRD", "CASSLGF"]]
+    pb = [["CAVRD", "CASSPGF"], ["CAVKD", "CASSLGF"]]
+    for ka, kb in (("list", "list"), ("set", "list"), ("tuple", "set"), ("series", "list")):
+        yield "sets", {"a": pa, "b": pb, "ka": ka, "kb": kb}, True
+        yield "sets", {"a": pa, "b": pb + [["CAVRD", "CASSLGF"]], "ka": ka, "kb": kb}, True
     yield "sets", {"a": ["x", "y", "y"], "b": ["y", None, "z"], "ka": "list", "kb": "series"}, True
     if thorough:
         uni = ["p", "q", "r", "s"]
